@@ -84,6 +84,8 @@ CONSUME_OK = {
         ({"stage.status not in {WorkflowStatus.RUNNING}"}, MOOT + " (halt statuses re-push the workflow/parent completion instead)"),
         ({"!status == WorkflowStatus.RUNNING", "in_flight_children"}, "failed stage whose on-failure / after children are still in flight: their completion drives the parent"),
         ({"status == WorkflowStatus.RUNNING"}, "determine_status() says tasks or synthetic children are still in flight: their own completion messages carry the stage on"),
+        ({"stage.status in {WorkflowStatus.RUNNING}", "!stage.status == WorkflowStatus.RUNNING"}, "error branch: the stage was RUNNING when the step began and the copy re-read after the failure is not any more - the completion was "
+         "committed after all (or another handler finalized the stage), and that commit carries the continuation (C05.R2)"),
     ],
     "CompleteWorkflowHandler": [({"execution.status.is_complete"}, MOOT)],
     "CancelWorkflowHandler": [({"execution.status.is_complete"}, MOOT)],
@@ -311,6 +313,33 @@ def run(ctx, rep) -> None:
                           "CompleteStageHandler drops this message as stale: nothing starts the parent's tasks and the workflow stays RUNNING with an empty queue (ContinueParentStage is the message that continues a parent)",
                           e.site[0], e.site[1], disc=f"upward-complete:{','.join(sorted(final))}")
     rep.floor("upward CompleteStage pushes examined", nu, 3)
+
+    # ---- R7: an error branch must be able to record the failure -----------------------------------------------------
+    # A status write through the validating setter raises when the transition is illegal. Inside an error handler (after an
+    # exception edge) that second exception escapes the handler: the failure is never stored, the message is retried into
+    # the DLQ and the entity stays as it is in the store - with nothing queued to continue it.
+    rep.rule("C05.R7", "a validated status write made after an exception edge (inside an error branch) is a legal transition from every status the object can have on that path")
+    n7 = 0
+    for pi in infos:
+        if pi.synthetic_after is None:
+            continue
+        for i, e in enumerate(pi.trace):
+            if e.kind != "status_write" or i <= pi.synthetic_after or not e.get("validated") or e.get("okind") not in ("stage", "task", "workflow"):
+                continue
+            frm, to = frozenset(e.get("frm")), frozenset(e.get("to"))
+            if len(frm) > 8:
+                continue        # status unknown on this path: nothing to conclude
+            n7 += 1
+            illegal = sorted(f for f in frm for t_ in to if f != t_ and t_ not in T.transitions.get(f, frozenset()))
+            key = ("r7", pi.handler, e.site, tuple(illegal))
+            if key in seen:
+                continue
+            seen.add(key)
+            rep.check(not illegal, "C05.R7", f"{pi.handler}: error branch sets {e.get('okind')} {sorted(to)}", f"from {sorted(frm)}: legal" if not illegal else
+                      f"the object handled by the error branch can already be {illegal} in memory (the status was applied before the step failed); {illegal[0]} -> {sorted(to)[0]} is rejected by the validating setter, "
+                      "so the error branch raises again: the failure is never recorded, the message cycles into the DLQ and the stored entity stays RUNNING with an empty queue",
+                      e.site[0], e.site[1], disc=f"error-branch:{e.get('okind')}:{','.join(illegal)}")
+    rep.floor("validated status writes on fault paths", n7, 1)
 
     # ---- R3 continuation effectiveness ------------------------------------------------------------------
     n3 = 0
